@@ -35,8 +35,8 @@ def obs (ps : List Param) (w : World) : ConstOp → Obs
   | .consumption k => .nat ((w.vecs k).map (·.bytes) |>.getD 0)
   | .dataEnd k => .nat ((w.vecs k).map (·.dataEnd) |>.getD 0)
   | .get k i => .elem ((w.vecs k).bind (·.get i))
-  | .eq k j => .ob (vecEq ps (absOf w k) (absOf w j))
-  | .lt k j => .bool (vecLt ps (absOf w k) (absOf w j))
+  | .eq k j => .ob (vecEq ps (((w.vecs k).map (·.fs)).getD []) (((w.vecs j).map (·.fs)).getD []) (absOf w k) (absOf w j))
+  | .lt k j => .bool (vecLt ps (((w.vecs k).map (·.fs)).getD []) (((w.vecs j).map (·.fs)).getD []) (absOf w k) (absOf w j))
   | .copyTo k d => .content (((w.copy k d).vecs d).map (·.abs) |>.getD [])
 
 /-- the state after a const operation (only copying has an effect, on the private slot and the ledger) -/
